@@ -444,6 +444,11 @@ func (w *world) advanceBy(max time.Duration) {
 	if d > max {
 		d = max
 	}
+	// where the handler's ping timer stands is inferred from the ping writes seen so far; if
+	// the implementation schedules pings differently, a timer may fire while a client is inside
+	// a write and the order of its next two writes becomes the Go runtime's choice. The oracle
+	// does not depend on that order; the run is only kept out of the determinism guard.
+	w.rc.Res.Racy = true
 	w.note("advance %v (clients busy)", d)
 	time.Sleep(d)
 	w.k.Quiesce()
